@@ -122,8 +122,23 @@ def copySlot (h : HS) (s : Slot) : HS :=
   | none => h
   | some m => { h with heap := h.heap ++ [⟨true, m⟩], slot := updSlot h.slot s (some h.heap.length) }
 
-/-- pickle round trip of the workflow under study: both map attributes come back as equal, new objects -/
-def hreload (h : HS) : HS := copySlot (copySlot h .wfIn) .wfOut
+/-- `Composite.__getstate__` stores the connections among the composite's OWN children only (by
+label); the unpickled copy has new children whose links to nodes outside are gone, and the nodes
+outside keep pointing at the OLD children, which still exist but are no children of the copy.
+The copy's children take over the channel ids; an old child's channel `c` lives on as `ghost c`. -/
+def ghost (c : Nat) : Nat := c + 1000000
+
+def cutOutside (w : W) : W :=
+  let own : Nat → Bool := fun c => (w.children.flatMap Child.ids).contains c
+  let conns : Nat → List Nat := fun c =>
+    if own c then (w.g.conns c).filter own else (w.g.conns c).map fun x => if own x then ghost x else x
+  { w with g := { w.g with conns := conns } }
+
+/-- pickle round trip of the workflow under study: both map attributes come back as equal, new
+objects; children, values and the links among the children survive, links to the outside do not -/
+def hreload (h : HS) : HS :=
+  let h' := copySlot (copySlot h .wfIn) .wfOut
+  { h' with base := cutOutside h'.base }
 
 def Op.isMapOp : Op → Bool
   | .setMap _ _ => true
